@@ -28,6 +28,9 @@ def plan(tier, seed):
     specs += [{"mode": "soup", "seed": seed, "shard": i, "n": nsoup} for i in range(n)]
     specs += [{"mode": "product_sample", "alpha": "pos", "len": L, "seed": seed, "shard": i, "n": 4000 if tier == "quick" else 60000}
               for i, L in enumerate([7, 8, 9, 10, 12, 14, 16, 20])]
+    # containers (comments, literals with every prefix, directive bodies; closed and left open) x payload sequences
+    specs += [{"mode": "grammar", "seed": seed, "shard": i, "nshards": 8, "maxlen": 2 if tier == "quick" else 3,
+               "sample": 1500 if tier == "quick" else 40000} for i in range(8)]
     specs += pipework.plan_programs(tier, seed, "C09", nshards=8, per_shard=60 if tier == "quick" else 1200)
     return specs
 
